@@ -470,7 +470,7 @@ class Interp:
 
     def e_Constant(self, e, fr):
         v = e.value
-        if isinstance(v, bool) or v is None or isinstance(v, str):
+        if isinstance(v, bool) or v is None or isinstance(v, (str, bytes)):
             return v
         if isinstance(v, int):
             return v
@@ -539,6 +539,8 @@ class Interp:
             return X.atom(nm, 'pos')
         if base.startswith('scipy.constants') or base == 'scipy.constants':
             return X.atom('const_' + nm, 'pos')
+        if 'cython_lapack' in base or 'cython_blas' in base:
+            return Builtin(base + '.' + nm)          # kept qualified: clients treat every LAPACK/BLAS routine alike
         return Builtin(nm)
 
     def e_Attribute(self, e, fr):
